@@ -1,6 +1,6 @@
 (* Model/C06Run.v - case type and checker evaluated on harness-generated cases (C06) *)
 From Coq Require Import ZArith Bool List.
-From ReqV Require Export Lib.Bytes Model.H2Flow.
+From ReqV Require Export Lib.Bytes Model.H2Flow Model.H2Monitor.
 Import ListNotations.
 Open Scope Z_scope.
 
@@ -11,9 +11,38 @@ Fixpoint zlist_eqb (a b : list Z) : bool :=
   | _, _ => false
   end.
 
+(* what the harness read from the live ClientConn (hook) once the scenario was quiescent:
+   cConnInit = connection receive window the client granted with its preface; then cc.flow.n,
+   cc.inflow.avail, cc.inflow.unsent, cc.maxFrameSize, cc.maxConcurrentStreams,
+   cc.initialWindowSize, cc.nextStreamID *)
+Inductive quiesce_obs :=
+| QObs (c_conn_init flow in_avail in_unsent max_frame max_streams init_win next_id : Z).
+
 Inductive c06_case :=
 | FlowCase (ops : list fop) (final : list Z)
-| ConstCase (name : bytes) (val : Z).
+| ConstCase (name : bytes) (val : Z)
+| TraceCase (evs : list ev) (verdict : option (nat * Z)) (q : option quiesce_obs).
+
+Definition verdict_eqb (a b : option (nat * Z)) : bool :=
+  match a, b with
+  | None, None => true
+  | Some (i, c), Some (j, d) => Nat.eqb i j && (c =? d)
+  | _, _ => false
+  end.
+
+(* equality of the conserved quantities: what the strict peer computed from the wire equals
+   what the real client believes, and all consumed credit is accounted for *)
+Definition quiesce_ok (m : mon) (q : quiesce_obs) : bool :=
+  let '(QObs cinit flow avail unsent mf ms iw nid) := q in
+  (m_conn_win m =? flow) &&
+  (m_max_frame m =? mf) &&
+  (match m_max_streams m with Some v => v | None => c_defaultMaxConcurrentStreams end =? ms) &&
+  (m_init_win m =? iw) &&
+  (m_last_sid m + 2 <=? nid) && Z.odd nid &&
+  (m_c_conn_win m =? avail) &&
+  (avail + unsent =? cinit) &&
+  (0 <=? unsent) && (unsent <? inflowMinRefresh) &&
+  match m_pending m with [] => true | _ => false end.
 
 Definition const_table : list (bytes * Z) :=
   [ (bs "inflowMinRefresh", inflowMinRefresh);
@@ -35,4 +64,11 @@ Definition c06_check (c : c06_case) : bool :=
       let '(ok, v) := fvm_run fvm0 ops in ok && zlist_eqb (fvm_state v) final
   | ConstCase n val =>
       match lookup_const n const_table with Some v => v =? val | None => false end
+  | TraceCase evs verdict q =>
+      let '(v, m) := monitor_run mon0 evs 0 in
+      verdict_eqb v verdict &&
+      match v, q with
+      | None, Some qo => quiesce_ok m qo
+      | _, _ => true
+      end
   end.
